@@ -11,6 +11,7 @@ import Proofs.Wrappers
 import Proofs.HookTrace
 import Proofs.HookFacts
 import Proofs.Stack
+import Proofs.LimitRequests
 import Props.C08
 namespace Scale.C12
 open Scale
@@ -173,5 +174,34 @@ theorem depth_limit_over_tracker_adds_no_success {α : Type} (L D : Nat) (p : Pr
 
 example : (run (depthInput 5 (memInput 100 sliceInput)) (Impl.decodeP (.box 8 (.prim .u64))) (([1, 0, 0, 0, 0, 0, 0, 0], 0), 0)).2.1.2 = 8 := by
   decide
+
+
+/-! ### The limit bounds what decoding requests — for every byte string
+
+`traceRec (memInput L I)` records the announcements the tracker ACCEPTED. Every request of the
+decoder follows its own announcement and a refused announcement ends the decode, so: -/
+
+/-- For every decoder program, every inner input and every byte string, whether the decode succeeds,
+    fails on the data or is stopped by the limit: the announcements accepted by a tracker with limit
+    `L` add up to less than `L` (or nothing was announced). -/
+theorem accepted_announcements_below_limit {σ α : Type} (I : InputOps σ) (L : Nat) (hL : L ≤ usizeMax)
+    (p : Prog α) (s : σ) :
+    allocTotal (run (traceRec (memInput L I)) p ((s, 0), [])).2.2 < L ∨
+    allocTotal (run (traceRec (memInput L I)) p ((s, 0), [])).2.2 = 0 :=
+  (lim_run I L hL p ((s, 0), []) ⟨rfl, Or.inr rfl⟩).2
+
+/-- Hence for every type without `from_iter` collections — where every request site of the crate is
+    an announcement site (`decodeR_eq_decodeP`) — and every byte string: the heap memory REQUESTED
+    during memory-limited decoding is less than the limit, successful decode or not. -/
+theorem limit_bounds_requests (L : Nat) (hL : L ≤ usizeMax) (ty : Ty) (hn : noNodes ty = true) (bs : Bytes) :
+    allocTotal (run (traceRec (memInput L sliceInput)) (Impl.decodeR ty) ((bs, 0), [])).2.2 < L ∨
+    allocTotal (run (traceRec (memInput L sliceInput)) (Impl.decodeR ty) ((bs, 0), [])).2.2 = 0 :=
+  accepted_announcements_below_limit sliceInput L hL (Impl.decodeR ty) bs
+
+example : noNodes (.seq .vec 24 (.box 8 (.seq .vec 1 (.prim .u8)))) = true := by decide
+example : noNodes (.seq .list 24 (.prim .u8)) = false := by decide
+/-- A hostile count under a limit of 100 bytes: the first chunk is refused, nothing is requested. -/
+example : allocTotal (run (traceRec (memInput 100 ioInput)) (Impl.decodeR (.seq .vec 1 (.prim .u8)))
+    ((Spec.compact 40000 ++ [1, 2, 3], 0), [])).2.2 = 0 := by decide
 
 end Scale.C12
